@@ -26,6 +26,18 @@ func (p c09Params) name() string {
 	return fmt.Sprintf("sendorder/senders=%dx%d/events=%dx%d/slow=%v/cap=%d/overlap=%v", p.Senders, p.Lines, p.Events, p.HLines, p.Slow, p.ChanCap, p.Overlap)
 }
 
+// every line carries bytes that make "byte for byte" observable: format verbs, control bytes, quotes,
+// backslashes, UTF-8, NUL; every third line is long
+const c09Special = "100%s %d %% %v %! tab\there \x01x\x01 \"q\" \\ back h\u00e9llo \u2603 \x00nul"
+
+func c09Text(who string, i int) string {
+	t := fmt.Sprintf("%s-%d %s", who, i, c09Special)
+	if i%3 == 2 {
+		t += " " + strings.Repeat("long-", 60)
+	}
+	return t
+}
+
 func c09Scenario(p c09Params) *explore.Scenario {
 	sc := &explore.Scenario{
 		Family: "sendorder",
@@ -39,9 +51,9 @@ func c09Scenario(p c09Params) *explore.Scenario {
 		c.HandleFunc("PRIVMSG", func(conn *client.Conn, line *client.Line) {
 			for i := 0; i < p.HLines; i++ {
 				if i%2 == 0 {
-					conn.Privmsg("#c", fmt.Sprintf("h-%s-%d", line.Text(), i))
+					conn.Privmsg("#c", c09Text("h-"+line.Text(), i))
 				} else {
-					conn.Raw(fmt.Sprintf("PRIVMSG #c :h-%s-%d", line.Text(), i))
+					conn.Raw("PRIVMSG #c :" + c09Text("h-"+line.Text(), i))
 				}
 			}
 		})
@@ -73,9 +85,9 @@ func c09Scenario(p c09Params) *explore.Scenario {
 			env.Go(fmt.Sprintf("sender%d", s), func() {
 				for i := 0; i < p.Lines; i++ {
 					if (s+i)%2 == 0 {
-						c.Raw(fmt.Sprintf("PRIVMSG #c :u%d-%d", s, i))
+						c.Raw("PRIVMSG #c :" + c09Text(fmt.Sprintf("u%d", s), i))
 					} else {
-						c.Privmsg("#c", fmt.Sprintf("u%d-%d", s, i))
+						c.Privmsg("#c", c09Text(fmt.Sprintf("u%d", s), i))
 					}
 				}
 				done.Add(1)
@@ -112,12 +124,12 @@ func c09Scenario(p c09Params) *explore.Scenario {
 		want := map[string]int{"NICK me": 1, "USER ident 12 * :Real Name": 1}
 		for s := 0; s < p.Senders; s++ {
 			for i := 0; i < p.Lines; i++ {
-				want[fmt.Sprintf("PRIVMSG #c :u%d-%d", s, i)]++
+				want["PRIVMSG #c :"+c09Text(fmt.Sprintf("u%d", s), i)]++
 			}
 		}
 		for e := 0; e < p.Events; e++ {
 			for i := 0; i < p.HLines; i++ {
-				want[fmt.Sprintf("PRIVMSG #c :h-e%d-%d", e, i)]++
+				want["PRIVMSG #c :"+c09Text(fmt.Sprintf("h-e%d", e), i)]++
 			}
 		}
 		got := map[string]int{}
@@ -141,9 +153,9 @@ func c09Scenario(p c09Params) *explore.Scenario {
 		for _, l := range lines {
 			var who string
 			var s, i, e int
-			if n, _ := fmt.Sscanf(l, "PRIVMSG #c :u%d-%d", &s, &i); n == 2 {
+			if n, _ := fmt.Sscanf(l, "PRIVMSG #c :u%d-%d ", &s, &i); n == 2 {
 				who = fmt.Sprintf("sender%d", s)
-			} else if n, _ := fmt.Sscanf(l, "PRIVMSG #c :h-e%d-%d", &e, &i); n == 2 {
+			} else if n, _ := fmt.Sscanf(l, "PRIVMSG #c :h-e%d-%d ", &e, &i); n == 2 {
 				who = fmt.Sprintf("handler-e%d", e)
 			} else {
 				continue
